@@ -10,5 +10,6 @@ CONSTANTS
   SpawnUnderLock = TRUE
   MaxCrash = 1
   RecheckAfterWait = TRUE
+  WakeAfterResize = TRUE
 INVARIANT IdsGrow
 PROPERTY ReturnsUsable
